@@ -38,7 +38,9 @@ def run(oc, tier, seed, model_available, escalate):
         db = os.path.join(d, "db.csv")
         ru.run_main(["-i", root, "-d", db, "-g", "-f", "--silent"])
         # scraped folder
-        scr = os.path.join(d, "scraped")
+        # folder names: unrelated, output a character-prefix of the input path, input a character-prefix of the output path
+        scr_name, out_name = rng.choice([("scraped", "out"), ("recovered_raw", "recovered"), ("rec", "rec_out"), ("in put", "in")])
+        scr = os.path.join(d, scr_name)
         os.makedirs(scr)
         complete = rng.random() < 0.3
         scraped = {}
@@ -60,7 +62,7 @@ def run(oc, tier, seed, model_available, escalate):
             scraped["unknown%d.bin" % k] = b"unknown-%d-%d" % (i, k)
             extra = True
         ru.write_tree(scr, {p: (c, ru.BASE_NS + 77 * 10**9) for p, c in scraped.items()})
-        out = os.path.join(d, "out")
+        out = os.path.join(d, out_name)
         os.makedirs(out)
         rc, _ = ru.run_main(["-i", scr, "-d", db, "--filescraping_recovery", "-o", out, "--silent"])
         oc.oracle_cases += 1
